@@ -260,6 +260,16 @@ func (w *World) applyPin(s Step) *Violation {
 	w.Pins[s.N] = e
 	w.FreeHelpers = true
 	w.P.Inc("pin.opened")
+	if s.ID%3 == 0 {
+		// a second export of the same version, closed at once - and closed
+		// twice ("safe to call multiple times"): the first one is still open,
+		// the version stays pinned (seeds C06-A, C04-4A)
+		if e2, err := it.Export(); err == nil {
+			e2.Close()
+			e2.Close()
+			w.P.Inc("pin.sibling-export-closed-twice")
+		}
+	}
 	return nil
 }
 
